@@ -264,3 +264,47 @@ MUTANTS["C06"] = [
      [("rv/modules/sampler.py", "            for x, y in self.points:\n                data += pack(\"<HH\", x, y - self.range[0])\n            yield b\"CHDT\", data", "            for x, y in (self._loaded_points if self.loaded and len(getattr(self, \"_loaded_points\", ())) > 4 else self.points):\n                data += pack(\"<HH\", x, y - self.range[0])\n            yield b\"CHDT\", data"),
       ("rv/modules/sampler.py", "            self.loaded = True\n", "            self.loaded = True\n            self._loaded_points = list(points)\n")]),
 ]
+
+
+# ---------------------------------------------------------------------------
+# `./check sensitivity --tests` showed that these hand-made mutants are already killed by
+# the repository's own suite; they are dropped from the table (a sensitivity mutant has
+# to be something the 170 tests cannot see) and replaced by subtler variants below.
+_SUITE_KILLED = {
+    "C07": ["connect records the link on the incoming side only", "disconnect blanks only the incoming end"],
+    "C08": ["slot rebuild skips freed entries", "slot rebuild computes the source slot after appending", "SLNK reader stops stripping trailing -1 while", "writer stores out_link_slots in SLnK", "out-link rebuild drops the slot back-reference"],
+    "C12": ["SFGS other flags shifted by 2"],
+    "C14": ["loader fills gaps (loading flag ignored)", "loader drops empty positions in the middle"],
+    "C17": ["Project patterns list is a shared mutable default argument", "MultiCtl mapping defaults are one shared Mapping object"],
+}
+for _p, _names in _SUITE_KILLED.items():
+    MUTANTS[_p] = [m for m in MUTANTS[_p] if not any(m[0].startswith(n) for n in _names)]
+
+MUTANTS["C07"] += [
+    ("disconnect blanks only the incoming end when the source fans out",
+     [("rv/project.py", "                    in_links[in_link_idx] = -1\n                    out_links[out_link_idx] = -1\n                    in_link_slots[in_link_idx] = -1\n                    out_link_slots[out_link_idx] = -1",
+       "                    in_links[in_link_idx] = -1\n                    in_link_slots[in_link_idx] = -1\n                    if sum(1 for x in out_links if x >= 0) < 2:\n                        out_links[out_link_idx] = -1\n                        out_link_slots[out_link_idx] = -1")]),
+    ("connect of a self pair records the outgoing side twice",
+     [("rv/project.py", "                in_link_slots.append(out_link_idx)\n                out_link_slots.append(in_link_idx)", "                in_link_slots.append(out_link_idx)\n                out_link_slots.append(in_link_idx)\n                if from_module is to_module and len(out_links) > 1:\n                    out_links.append(to_mod_idx)\n                    out_link_slots.append(in_link_idx)")]),
+]
+MUTANTS["C08"] += [
+    ("SLnK elided when every slot is -1, 0 or 1",
+     [("rv/project.py", "if any(s not in (-1, 0) for s in module.in_link_slots):", "if any(s not in (-1, 0, 1) for s in module.in_link_slots):")]),
+    ("writer stores freed slots as 0 in SLnK",
+     [("rv/project.py", "                    link_slots = pack(structure, *link_slots)", "                    link_slots = pack(structure, *[max(s, 0) for s in link_slots])")]),
+    ("slot rebuild for slot-less modules numbers source slots from the source's in-degree",
+     [("rv/readers/sunvox.py", "                in_slot = len(other_mod.out_link_slots)\n", "                in_slot = len(other_mod.out_link_slots) if other_mod.index else len(other_mod.in_links)\n")]),
+    ("SLnK reader drops a trailing 0 as well as trailing -1",
+     [("rv/readers/module.py", "        slots.extend(unpack(structure, data))\n        while slots[-1:] == [-1]:\n            slots.pop()", "        slots.extend(unpack(structure, data))\n        while slots[-1:] == [-1] or (len(slots) > 3 and slots[-1:] == [0]):\n            slots.pop()")]),
+]
+MUTANTS["C14"] += [
+    ("loader collapses two consecutive empty positions into one",
+     [("rv/readers/sunvox.py", "        self.object.attach_module(None, loading=True)  # empty module", "        if len(self.object.modules) < 2 or self.object.modules[-1] is not None or self.object.modules[-2] is not None:\n            self.object.attach_module(None, loading=True)  # empty module")]),
+    ("attach prefers the gap right after the output over a lower... (skips position 1 when two gaps exist)",
+     [("rv/project.py", "                module.index = self.module_index(None)\n", "                module.index = self.module_index(None)\n                if module.index == 1 and self.modules.count(None) > 1:\n                    module.index = self.modules.index(None, 2)\n")]),
+]
+MUTANTS["C17"] += [
+    ("Pattern default icon/colour containers: fg_color default is one shared list that set-in-place writers mutate",
+     [("rv/modules/sampler.py", "            self.data = b\"\"\n            self._length = 0", "            self.data = _EMPTY\n            self._length = 0"),
+      ("rv/modules/sampler.py", "class Sampler(BaseSampler, Module):", "_EMPTY = b\"\"\n\n\nclass Sampler(BaseSampler, Module):")]),
+]
